@@ -40,6 +40,7 @@ type c09Case struct {
 	Rendezvous bool   `json:"rendezvous"`
 	Sched      uint64 `json:"sched"`
 	Run        int    `json:"run"`
+	StructBase bool   `json:"struct_base,omitempty"` // the shared base template was filled with struct data before the concurrent phase
 	Focus      string `json:"focus,omitempty"` // name of the program half of all calls render ("" = none): every program is hammered against itself in some run
 }
 
@@ -202,6 +203,7 @@ func (p *c09) Gen(ctx core.Ctx, i int) any {
 	}
 	c.Kind = "stress"
 	c.Mode = []string{"vue", "template", "mixed"}[r.Intn(3)]
+	c.StructBase = r.Chance(1, 3)
 	if i%4 != 3 {
 		// rotate the focus through the catalogue (i advances by 1, lin runs take every 5th slot)
 		c.Focus = p.progs[(i-i/5)%len(p.progs)].Name
@@ -210,6 +212,14 @@ func (p *c09) Gen(ctx core.Ctx, i int) any {
 }
 
 func (p *c09) Decode(raw json.RawMessage) (any, error) { return core.JSONDecode[c09Case](raw) }
+
+// c09SiteCfg: field names and tags that no catalogue program reads.
+type c09SiteCfg struct {
+	SiteName string      `json:"c09_site_name"`
+	Build    int         `json:"c09_build"`
+	Flags    []string    `json:"c09_flags"`
+	Inner    *c09SiteCfg `json:"c09_inner"`
+}
 
 type c09Call struct {
 	prog  *Prog
@@ -234,6 +244,14 @@ func (p *c09) Exec(ctx core.Ctx, cc any) core.Obs {
 	files := CatFS(p.progs, nil)
 	fsys := memFS(files)
 	eng := newCatEngine(fsys)
+	if c.StructBase {
+		// site-wide settings given as a struct to the long-lived base template: every
+		// Load / New / RenderString of the concurrent phase starts from that shared stack
+		eng.base = eng.base.Fill(&c09SiteCfg{SiteName: "site", Build: 7, Flags: []string{"x"}, Inner: &c09SiteCfg{SiteName: "inner"}})
+		o.Cell("base/filled-with-struct")
+	} else {
+		o.Cell("base/not-filled")
+	}
 
 	// plans
 	var focus *Prog
